@@ -244,10 +244,15 @@ func (r *run) runFaults() {
 			}
 			if err == nil {
 				r.probe("faulted_batch_accepted")
-				// is a main record still present in the delivered batch?
+				// is the main record still present in the delivered batch? Its
+				// bytes count, whatever label they travel under: a main record
+				// relabelled as a related payload is still "a main record that
+				// was present in the batch", and success without its telemetry
+				// discards it silently.
 				mainPresent := false
+				mainBytes := target.bar.ArrowPayloads[0].Record
 				for _, p := range bar.ArrowPayloads {
-					if p.Type == mt && len(p.Record) > 0 {
+					if len(p.Record) > 0 && (p.Type == mt || string(p.Record) == string(mainBytes)) {
 						mainPresent = true
 					}
 				}
